@@ -181,7 +181,18 @@ func perr(op, name string, err error) error { return &fs.PathError{Op: op, Path:
 
 var errIO = io.ErrClosedPipe // stands for EIO in injected faults
 
-func (f *FS) fail(op, name string) bool { return f.MayFail != nil && f.MayFail(op, name) }
+// fail asks the harness whether this call fails. The callback runs without the
+// file-system lock: it may be a scheduling point that waits for other goroutines.
+func (f *FS) fail(op, name string) bool {
+	if f.MayFail == nil {
+		return false
+	}
+	cb := f.MayFail
+	f.mu.Unlock()
+	r := cb(op, name)
+	f.mu.Lock()
+	return r
+}
 
 // ---- package-level API (subset of package os) ----
 
